@@ -8,6 +8,7 @@ import (
 	"net/http/httptrace"
 	"net/textproto"
 	"sync"
+	"sync/atomic"
 	"time"
 
 	"github.com/quic-go/qpack"
@@ -237,20 +238,25 @@ func (c *SingleDestinationRoundTripper) OpenRequestStream(ctx context.Context) (
 type cancelingReader struct {
 	r   io.Reader
 	str Stream
+	// onError, if set, is told the error before writing is canceled.
+	onError func(error)
 }
 
 func (r *cancelingReader) Read(b []byte) (int, error) {
 	n, err := r.r.Read(b)
 	if err != nil && err != io.EOF {
+		if r.onError != nil {
+			r.onError(err)
+		}
 		r.str.CancelWrite(quic.StreamErrorCode(ErrCodeRequestCanceled))
 	}
 	return n, err
 }
 
-func (c *SingleDestinationRoundTripper) sendRequestBody(str Stream, body io.ReadCloser, dumps []*dump.Dumper) error {
+func (c *SingleDestinationRoundTripper) sendRequestBody(str Stream, body io.ReadCloser, dumps []*dump.Dumper, onReadError func(error)) error {
 	defer body.Close()
 	buf := make([]byte, bodyCopyBufferSize)
-	sr := &cancelingReader{str: str, r: body}
+	sr := &cancelingReader{str: str, r: body, onError: onReadError}
 	var w io.Writer = str
 	// Only the dumpers that want the request body get it, and they get it the
 	// same way as on HTTP/1.1 and HTTP/2: through the dumper (so that async
@@ -277,13 +283,22 @@ func (c *SingleDestinationRoundTripper) doRequest(req *http.Request, str *reques
 		closeRequestBody(req)
 		return nil, err
 	}
+	// A request body that cannot be read to its end fails the round trip, as
+	// it does on HTTP/1.1 and HTTP/2: the upload was reset half-way, and a
+	// response the server may still send to it must not pass for success.
+	var bodyErr atomic.Pointer[error]
 	if req.Body == nil {
 		str.Close()
 	} else {
 		// send the request body asynchronously
 		go func() {
 			dumps := dump.GetDumpers(req.Context(), c.Dump)
-			if err := c.sendRequestBody(str, req.Body, dumps); err != nil {
+			err := c.sendRequestBody(str, req.Body, dumps, func(err error) { bodyErr.Store(&err) })
+			if err != nil {
+				if bodyErr.Load() != nil {
+					// stop waiting for a response
+					str.CancelRead(quic.StreamErrorCode(ErrCodeRequestCanceled))
+				}
 				if c.Debugf != nil {
 					c.Debugf("error writing request: %s", err.Error())
 				}
@@ -301,6 +316,9 @@ func (c *SingleDestinationRoundTripper) doRequest(req *http.Request, str *reques
 	for {
 		var err error
 		res, err = str.ReadResponse()
+		if rerr := bodyErr.Load(); rerr != nil {
+			return nil, *rerr
+		}
 		if err != nil {
 			return nil, err
 		}
